@@ -148,11 +148,11 @@ Section One.
   Definition xdi_pow (n : Z) : Q :=
     match n with 1%Z => xdi | 2%Z => xdi * xdi | 3%Z => xdi * xdi * xdi | _ => 1 end.
 
-  (* the block stored in coeffs_view[i_x - 1, :] after the denormalisation loop *)
-  Definition build1 (i : Z) (vals : list Q) : Q * Q * Q * Q :=
+  (* the block stored in coeffs_view[i_x - 1, :] after the denormalisation loop; tm t0 t1 t2 are the
+     normalised coordinates x_view[i-1 .. i+2], vals the normalised data data_view[i-1 .. i+2] *)
+  Definition coeffs1 (tm t0 t1 t2 : Q) (vals : list Q) : Q * Q * Q * Q :=
     match vals with
     | [dm; d0; d1; d2] =>
-        let tm := xv (i - 1) in let t0 := xv i in let t1 := xv (i + 1) in let t2 := xv (i + 2) in
         let s0 := Qred ((d1 - dm) / (t1 - tm)) in      (* l = 1: derivative row at u = i *)
         let s1 := Qred ((d2 - d0) / (t2 - t0)) in      (* l = 3: derivative row at u = i+1 *)
         let a := solve4 t0 t1 d0 s0 d1 s1 in
@@ -161,6 +161,8 @@ Section One.
         (Qred (c 0%Z + data_min fb), Qred (c 1%Z), Qred (c 2%Z), Qred (c 3%Z))
     | _ => (0, 0, 0, 0)
     end.
+  Definition build1 (i : Z) (vals : list Q) : Q * Q * Q * Q :=
+    coeffs1 (xv (i - 1)) (xv i) (xv (i + 1)) (xv (i + 2)) vals.
   Definition evalc1 (c : Q * Q * Q * Q) (px : Q) : Q :=
     let '(c0, c1, c2, c3) := c in c0 + c1 * px + c2 * px * px + c3 * px * px * px.
 
@@ -247,6 +249,28 @@ Section Instances.
     Definition pure3 := pure_eval (locate3 x y z topx topy topz) needed3 nodept3 f (normd fb) build3 (evalc3 x y z topx topy topz fb) nbe.
   End I3.
 End Instances.
+
+(* ------------------------------------------------------------------------------------------ *)
+(* History-free, normalisation-free specification: the cubic (tensor product of cubics) through  *)
+(* the wrapped function's values at the raw nodes of the cell                                     *)
+(* ------------------------------------------------------------------------------------------ *)
+Definition spec1 (x : Z -> Q) (f : Q -> Q) (i : Z) (p : Q) : Q :=
+  HL (x (i - 1)%Z) (x i) (x (i + 1)%Z) (x (i + 2)%Z)
+     (f (x (i - 1)%Z)) (f (x i)) (f (x (i + 1)%Z)) (f (x (i + 2)%Z)) p.
+Definition spec2 (x y : Z -> Q) (f : Q * Q -> Q) (c : Z * Z) (p : Q * Q) : Q :=
+  spec1 x (fun a => spec1 y (fun b => f (a, b)) (snd c) (snd p)) (fst c) (fst p).
+Definition spec3 (x y z : Z -> Q) (f : Q * Q * Q -> Q) (c : Z * Z * Z) (p : Q * Q * Q) : Q :=
+  let '(i, j, k) := c in let '(px, py, pz) := p in
+  spec1 x (fun a => spec1 y (fun b => spec1 z (fun c => f (a, b, c)) k pz) j py) i px.
+
+(* results equal up to == on the values *)
+Definition result_equiv (r1 r2 : result) : Prop :=
+  match r1, r2 with
+  | Val a, Val b => a == b
+  | Direct a, Direct b => a == b
+  | Err, Err => True
+  | _, _ => False
+  end.
 
 (* strictly increasing node function on 0..top: what __init__ produces (Proofs/C14_Grid.v) *)
 Definition increasing (x : Z -> Q) (top : Z) : Prop := forall k, (0 <= k < top)%Z -> x k < x (k + 1)%Z.
